@@ -643,6 +643,25 @@ def sentence_field_cases(rng, tier):
     for _ in range(40):
         for (n, k, sid) in ((1, 1, None), (1, 1, 4), (2, 1, None), (2, 1, 3), (3, 1, None), (9, 1, 0), (0, 1, None), (2, 2, None)):
             add(gen.sentence(pay, fill, n, k, sid, tag=gen.tag_block(rng, k, n)), 0)
+    # bytes in front of the sentence (a byte order mark, blanks, line ends, NULs, the tail of a torn line): rejected as
+    # the first line a parser ever sees and as a later one alike — nothing may be skipped to find the sentence
+    for pre in (b'\xef\xbb\xbf', b'\xef\xbb', b'\xff\xfe', b'\xfe\xff', b' ', b'  ', b'\t', b'\r', b'\n', b'\r\n', b'\x00', b'\x00\x00\x00', b'\xef\xbb\xbf ',
+                b'x', b'0*00', b',0*5C\r\n', b'\x11', b'\x13', b'\x1b[0m', b'>', b'#', b'\\', b'\\\\', b'!', b'$', b'!!', b'$!'):
+        for tagged in (None, b's:AIS1*00'):
+            line = pre + gen.sentence(pay, fill, tag=tagged)
+            out.append('H'); out.append(L(0, 1, line))                                                   # first call
+            out.append('H'); out.append(L(0, 1, gen.sentence(pay, fill))); out.append(L(0, 1, line))      # a later call
+            out.append('H'); out.append(L(0, 0, b'junk')); out.append(L(0, 0, line)); out.append(L(0, 0, line))
+    # a buffer that holds more than the sentence: line ends, NULs, flow-control bytes and whole further sentences behind
+    # the checksum, short and long (beyond every fixed capacity) — the sentence is what it is, the rest is not looked at
+    second = gen.sentence(gen.armor(gen.message_bits(rng, 18))[0], 0)
+    for noise in (b'\r\n', b'\n', b'\x00', b'\r\n\x00', b'\x11', b' \t ', b'\r\r\n'):
+        for copies in (1, 2, 5, 8, 40):
+            add(gen.sentence(pay, fill) + (noise + second) * copies + noise, None)
+        add(gen.sentence(pay, fill) + noise * 200, 0); add(gen.sentence(pay, fill) + noise + b'x' * 400, 0)
+        longp = bytes(rng.choice(gen.ALPHABET) for _ in range(370))
+        add(gen.sentence(b'8' + longp, 0) + noise + second + noise, None)
+        add(gen.sentence(pay, fill, 2, 1, 3) + noise + second * 6, 0)
     # TAG blocks whose parameters carry hostile values (signs, exponents, nan / inf, overflowing integers, malformed
     # groupings) behind a correct block checksum, in front of every numbering shape: nothing in a TAG block may matter
     for code in (b'c', b'g', b'n', b's', b'd', b't', b'x'):
@@ -1135,6 +1154,20 @@ def cli_streams(rng, tier):
                                          gen.undecodable_sentence(rng, None, sid=sid), gen.sentence(p2, f2_, sid=sid)[:-2] + b'zz', b'junk',
                                          gen.sentence(b'9', 0, 3, 3, 77)]))
         parts.append(v())
+        out.append(b'\n'.join(parts) + b'\n')
+    # a group that is complete but does not decode (no decoder, too short, an illegal character), then a stray
+    # continuation numbered one further with the same id, then ordinary traffic: the failed group is over
+    for _ in range(scale(tier, 120, 1200)):
+        pay, fill = gen.armor(gen.message_bits(rng, rng.choice([5, 8, 19, 21])))
+        kind = rng.randrange(3)
+        if kind == 0: pay = bytes([gen.armor_char(rng.choice([0, 22, 23, 25, 26, 28, 40, 63]))]) + pay[1:]
+        elif kind == 1: pay = pay[:rng.randrange(8, 30)]
+        else: k_ = rng.randrange(1, len(pay)); pay = pay[:k_] + bytes([rng.choice(gen.ILLEGAL_ARMOR)]) + pay[k_ + 1:]
+        n = rng.choice([2, 2, 3]); sid = rng.choice([None, 3, 7])
+        frs = gen.fragment(rng, pay, fill, n, sid)
+        stray_pay = gen.armor(gen.message_bits(rng, 5))[0][-rng.randrange(5, 40):]
+        parts = frs + [gen.sentence(stray_pay, rng.choice([0, 2]), rng.choice([n + 1, n + 2, 9]), n + 1, sid), v()]
+        if rng.random() < 0.5: parts.append(gen.sentence(stray_pay, 0, 9, n + 2, sid))
         out.append(b'\n'.join(parts) + b'\n')
     for _ in range(scale(tier, 250, 5000)):
         n = rng.choice([1, 3, 10, 40])
